@@ -634,7 +634,9 @@ impl Drop for GateGuard {
 }
 
 /// negative PUBACK/PUBREC reason codes an application may map an error to
-pub const NEG_CODES: [u8; 4] = [0x80, 0x83, 0x87, 0x97];
+/// (0x10 "no matching subscribers" is a success-class code: the exchange goes on - QoS 2 still expects
+/// PUBREL - although the handler answered through its error mapping)
+pub const NEG_CODES: [u8; 5] = [0x80, 0x83, 0x87, 0x97, 0x10];
 
 pub fn digest_bytes(b: &[u8]) -> u64 {
     let mut f = Fnv::default();
